@@ -406,7 +406,11 @@ func noise4tail(rng *rand.Rand, with82, with61 bool) []pkt.Opt4 {
 		o = append(o, pkt.O4(57, byte(v>>8), byte(v)))
 	}
 	if rng.Intn(4) == 0 {
-		o = append(o, pkt.O4(12, []byte("client-host")...))
+		if rng.Intn(2) == 0 {
+			o = append(o, pkt.O4(12, hostNameText(rng)...))
+		} else {
+			o = append(o, pkt.O4(12, []byte("client-host")...))
+		}
 	}
 	if rng.Intn(5) == 0 {
 		o = append(o, pkt.O4(93, 0, byte(rng.Intn(12))))
